@@ -86,6 +86,14 @@ def supports : Ty → Op → Bool
   | .ipv, .dump => true
   | .ipv, _ => false
 
+/-- Members outside `supports` that exist only for the specialisation `inplace_vector<T, 0>`: it is an empty
+    class without user-declared special members, hence implicitly copy- and move-assignable, and the generic
+    `etl::swap` (which needs move assignment) applies to it.  The object is always empty, nothing is observable
+    through them; histories do not use them.  Only the member inventory (`api_member`) reports them.
+    Argument: the operation name of the line protocol. -/
+def ipvZeroExtra (cap : Nat) (member : String) : Bool :=
+  cap == 0 && (member == "copy_assign" || member == "move_assign" || member == "swap_free")
+
 /-- operations on object `k` alone, for `static_vector` (and the stack built on it) -/
 def step1 (cap : Nat) (op : Op) (d : V) : Except Err (V × Out) :=
   match op with
@@ -213,6 +221,22 @@ def isBinary : Op → Option Nat
   | .cmp j => some j
   | _ => none
 
+/-- the documented precondition of an operation in the state `s` (positions valid, no more than the
+    capacity asked for, the objects named exist): what the caller owes, for a type that has the member -/
+def validPre (s : Sys) (k : Nat) (op : Op) : Bool :=
+  k < s.objs.length &&
+  match op with
+  | .copyCtor j => j < s.objs.length && j != k
+  | .moveCtor j => j < s.objs.length && j != k
+  | .copyAssign j => j < s.objs.length
+  | .moveAssign j => j < s.objs.length
+  | .swap j => j < s.objs.length
+  | .cmp j => j < s.objs.length
+  | op => match s.objs[k]? with
+    | some d => valid1 s.cap op d
+    | none => false
+
+/-- `validPre`, and the type has the member at all (`supports`) -/
 def valid (s : Sys) (k : Nat) (op : Op) : Bool :=
   supports s.ty op && k < s.objs.length &&
   match op with
@@ -234,12 +258,17 @@ def run (s : Sys) : List (Nat × Op) → Except Err (Sys × List Out)
     let r2 ← run r.1 rest
     .ok (r2.1, r.2 :: r2.2)
 
-/-- every operation of the history meets its precondition in the state it is applied to -/
+/-- every operation of the history meets its precondition in the *model* state it is applied to.
+    (Nothing is asked of the operations behind a failing step: that no step fails is a conclusion of
+    `history_refines_modelstate`, not part of this hypothesis.)  This notion of validity looks at the
+    model's objects and therefore also admits histories that go on using a moved-from object with the
+    contents etl happens to leave in it; the property's own notion — validity judged on what the
+    standard specifies — is `Spec.validHist` in Spec.lean. -/
 def validRun (s : Sys) : List (Nat × Op) → Bool
   | [] => true
   | (k, op) :: rest =>
     valid s k op && match step s k op with
       | .ok r => validRun r.1 rest
-      | .error _ => false
+      | .error _ => true
 
 end Tetl.C01
